@@ -10,12 +10,16 @@ namespace jv {
 struct PairsRun {
     RunEnv& env; W w; Rep& R; int view; const Plan& plan;
     static const size_t NP = 6, NR = 5;
-    std::vector<Buf> g1, g2, prep; std::vector<Buf> prep_src;       // prep_src: copy of the G2 point the prepared entry was computed from
+    std::vector<Buf> g1, g2; std::vector<Buf> prep_src;       // prep_src: copy of the G2 point the prepared entry was computed from
+    // the prepared points live in ONE table, entry after entry, each as large as the caller of this view declares the type (the C mirror
+    // struct through the C API): what a routine writes beyond its entry lands in the next entry or in the canary behind the table
+    Buf preptab; size_t prep_sz = 0; std::vector<uint8_t*> prep; static const size_t PREP_CANARY = 1024;
     std::vector<bool> prep_set;
     Buf arec, prec; int a_g1[NR], a_g2[NR], p_g1[NR], p_pr[NR];      // -1 = record never set
     PairsRun(RunEnv& e, const Plan& p) : env(e), w(e), R(*e.rep), view(e.view), plan(p) {
-        for (size_t i = 0; i < NP; i++) { g1.emplace_back(R.sz(JV_SZ_G1A)); g2.emplace_back(R.sz(JV_SZ_G2A)); prep.emplace_back(R.sz(JV_SZ_G2P), 0xEE); prep_src.emplace_back(R.sz(JV_SZ_G2A)); prep_set.push_back(false);
+        for (size_t i = 0; i < NP; i++) { g1.emplace_back(R.sz(JV_SZ_G1A)); g2.emplace_back(R.sz(JV_SZ_G2A)); prep_src.emplace_back(R.sz(JV_SZ_G2A)); prep_set.push_back(false);
             R.jv_const_get(JV_EK_G1A, i % 2, g1[i]); R.jv_const_get(JV_EK_G2A, (i + 1) % 2, g2[i]); }
+        prep_sz = R.jv_g2p_size(view); preptab.alloc(NP * prep_sz + (R.info.sanitized ? 0 : PREP_CANARY), 0xEE); for (size_t i = 0; i < NP; i++) prep.push_back(preptab.p + i * prep_sz);
         arec.alloc(NR * R.jv_pair_size(view, 0), 0xEE); prec.alloc(NR * R.jv_pair_size(view, 1), 0xEE); R.jv_pair_init(view, arec, NR, 0); R.jv_pair_init(view, prec, NR, 1);   // exact-size arrays of the record type the caller of this view declares
         for (size_t i = 0; i < NR; i++) a_g1[i] = a_g2[i] = p_g1[i] = p_pr[i] = -1;
     }
@@ -38,7 +42,11 @@ struct PairsRun {
     }
     void op_prep(const Op& op) {
         size_t pi = (size_t) op.arg(0) % NP, gi = (size_t) op.arg(1) % NP; env.lib_calls++;
+        // neighbours must survive: what prepare writes is its own entry and nothing else
+        std::vector<uint8_t> before(preptab.p, preptab.p + preptab.n);
         R.jv_g2prepared_prepare(view, prep[pi], g2[gi]); memcpy(prep_src[pi].p, g2[gi].p, g2[gi].n);
+        for (size_t off = 0; off < preptab.n; off++) if ((off < pi * prep_sz || off >= (pi + 1) * prep_sz) && preptab.p[off] != before[off])
+            env.fail("C08", "prepare:writes-only-its-own-object", strf("g2prepared_prepare on table entry %zu (a %zu-byte object as this caller declares it) changed byte %zu of %s", pi, prep_sz, off, off >= NP * prep_sz ? "the memory behind the table" : strf("entry %zu", off / prep_sz).c_str()));
         if (prep_set[pi]) env.count("fault:prepared_slot_re_prepared_from_another_point");
         prep_set[pi] = true;
         env.check((R.jv_g2prepared_is_zero(view, prep[pi]) != 0) == is_inf2(g2[gi]), "C08", "prepare:is_zero", "g2prepared_is_zero disagrees with the point prepared");
